@@ -128,39 +128,30 @@ Theorem C16_refuted_R_checkdefine_silences_more :
 Proof. exact define_check_silences_more. Qed.
 Print Assumptions C16_refuted_R_checkdefine_silences_more.
 
-(* ---- --cfile/--hfile + --filename: the analysis gets the same File (path, basename, source) and the same context
-   options as for a file of that name holding that content.  Model-level: `disk` returns the DECODED text; newline
-   translation and decoding on read are outside the model (harness: CR / CRLF / non-ASCII content). *)
-Theorem C16_inline_same_as_file : forall disk a a' path content,
-  content <> [] -> path <> [] -> disk path = Some content ->
-  (a_cfile a = Some content /\ a_filename a = Some path \/
-   truthy (a_cfile a) = false /\ a_hfile a = Some content /\ a_filename a = Some path) ->
-  truthy (a_cfile a') = false -> truthy (a_hfile a') = false -> a_file a' = [path] ->
-  a_debug a = a_debug a' -> a_R a = a_R a' ->
-  map (input_of disk) (files_of_args a) = map (input_of disk) (files_of_args a') /\ ctx_of_args a = ctx_of_args a'.
-Proof. exact inline_same_as_file. Qed.
-Print Assumptions C16_inline_same_as_file.
+(* ---- --cfile/--hfile + --filename: the statements of main()'s inline branch are the reviewed ones (with the newline
+   translation), the two str.replace passes compute open()'s universal-newline translation, and so the analysis gets
+   the same File (path, basename, source) and the same context options as for a file of that name holding those bytes,
+   for ALL non-empty contents (CR / CRLF included).  Modelled, not verified: open() itself (universal newlines; UTF-8
+   decoding as the identity on code points) - validated by the harness on real files.  The content must be non-empty:
+   main() tests its truthiness, an empty --cfile is ignored (C16_example_inline). *)
+Theorem C16_inline_branch_reviewed : inline_branch = reviewed_inline_branch.
+Proof. exact inline_branch_reviewed. Qed.
+Print Assumptions C16_inline_branch_reviewed.
 
-(* with the decoding of open() in the model (universal newlines): equal for content without carriage returns ... *)
-Theorem C16_inline_same_as_file_raw_partial : forall raw a a' path content,
-  content <> [] -> path <> [] -> raw path = Some content -> chr_in 13 content = false ->
+Theorem C16_translate_inline_universal : forall x, translate_inline x = universal_newlines x.
+Proof. exact translate_inline_universal. Qed.
+Print Assumptions C16_translate_inline_universal.
+
+Theorem C16_inline_same_as_file_raw : forall raw a a' path content,
+  content <> [] -> path <> [] -> raw path = Some content ->
   (a_cfile a = Some content /\ a_filename a = Some path \/
    truthy (a_cfile a) = false /\ a_hfile a = Some content /\ a_filename a = Some path) ->
   truthy (a_cfile a') = false -> truthy (a_hfile a') = false -> a_file a' = [path] ->
   a_debug a = a_debug a' -> a_R a = a_R a' ->
   map (input_of (disk_of_raw raw)) (files_of_args a) = map (input_of (disk_of_raw raw)) (files_of_args a')
   /\ ctx_of_args a = ctx_of_args a'.
-Proof. exact inline_same_as_file_raw_partial. Qed.
-Print Assumptions C16_inline_same_as_file_raw_partial.
-
-(* ... and different otherwise: a file `int a;<CR><LF>` is lexed as `int a;<LF>`, the same content given inline is not
-   [known finding C16-inline-no-newline-translation] *)
-Theorem C16_refuted_inline_newlines :
-  exists raw a a' path content, content <> [] /\ raw path = Some content /\
-    a_cfile a = Some content /\ a_filename a = Some path /\ a_cfile a' = None /\ a_hfile a' = None /\ a_file a' = [path] /\
-    map (input_of (disk_of_raw raw)) (files_of_args a) <> map (input_of (disk_of_raw raw)) (files_of_args a').
-Proof. exact inline_newlines_differ. Qed.
-Print Assumptions C16_refuted_inline_newlines.
+Proof. exact inline_same_as_file_raw. Qed.
+Print Assumptions C16_inline_same_as_file_raw.
 
 (* ================================================================== non-vacuity *)
 (* a rule set that raises at level 0 only: the third statement is a `goto 3;` *)
@@ -229,6 +220,11 @@ Example C16_example_inline :
   map (input_of disk) (files_of_args (args_of [FlHfile (s "int a;"); FlFilename (s "dir/x.h"); FlDebug 1]))
   = map (input_of disk) (files_of_args (args_of [FlDebug 1; FlPath (s "dir/x.h")])) /\
   map fi_in_base (map (input_of disk) (files_of_args (args_of [FlPath (s "dir/x.h")]))) = [s "x.h"] /\
+  (* CRLF / lone CR content: inline and file-based give the same source *)
+  (let raw := fun _ : str => Some (s "int a;" ++ [13; 10; 13]%N) in
+   map (input_of (disk_of_raw raw)) (files_of_args (args_of [FlCfile (s "int a;" ++ [13; 10; 13]%N); FlFilename (s "a.c")]))
+   = map (input_of (disk_of_raw raw)) (files_of_args (args_of [FlPath (s "a.c")])) /\
+   map fi_in_source (map (input_of (disk_of_raw raw)) (files_of_args (args_of [FlPath (s "a.c")]))) = [Some (s "int a;" ++ [10; 10]%N)]) /\
   (* empty inline content is falsy: main() falls back to the path selection *)
   files_of_args (args_of [FlCfile []; FlFilename (s "x.c")]) = [].
 Proof. repeat split. Qed.
